@@ -76,6 +76,10 @@ def _worker(args):
         res["name"] = case.name + (f"#{part[0]}" if part else "")
         kw = dict(case.kw)
         kw.pop("split", None)
+        if part and part[0] != 0:
+            kw["witness_paths"] = 0  # witness replays (real code, possibly slow) once per case, not once per partition
+        if tier == "thorough":
+            kw["time_budget"] = 4 * kw.get("time_budget", 600.0)  # the thorough tier may take its time; a budget hit is still reported as inconclusive
         known = [e for e in load_known(pid) if e.get("status") == "known"]
         regions = {}
         for e in known:
